@@ -562,11 +562,20 @@ def run_chains(ctx):
         arr = _mk(st, stp, n, attr, False)
         hist = []
         cur = arr
-        for stepno in range(rng.choice([2, 3])):
+        for stepno in range(rng.choice([2, 3, 4])):
             coords = np.asarray(cur.time.data)
             if len(coords) < 3:
                 break
             cst = float(coords[0])
+            if hist and not attr and len(coords) >= 6 and rng.random() < 0.35 and not hist[-1].startswith("thin"):
+                # between two library calls the caller thins the array with plain xarray (every k-th sample): the axis
+                # never had a declared step, so the next call works with the spacing the coordinates have NOW
+                kth = rng.choice([2, 3])
+                cur = cur.isel(time=slice(None, None, kth))
+                stp = stp * kth
+                hist.append(f"thin{kth}")
+                ctx.mon("chain.thinned_between_calls")
+                continue
             op = rng.choice(["extend", "extend", "crop"])
             lc, rc = rng.random() < 0.7, rng.random() < 0.4
             if op == "extend":
